@@ -397,7 +397,7 @@ where
 async fn rollback_rewind<S, E>(
     log_type: &EventLogType,
     storage: &mut S,
-    records: Vec<EventRecord>,
+    mut records: Vec<EventRecord>,
 ) -> std::result::Result<(), E>
 where
     S: SyncStorage,
@@ -409,6 +409,10 @@ where
         + Sync
         + 'static,
 {
+    // Rewind yields the discarded records newest first, they
+    // must be appended again in their original order
+    records.reverse();
+
     match log_type {
         EventLogType::Identity => {
             let log = storage.identity_log().await?;
